@@ -1772,6 +1772,9 @@ func (m *Monitors) pendingReaped(jobs []runtime.Object, margin time.Duration, wh
 func (m *Monitors) Fixpoint() {
 	w := m.w
 	now := w.Clk.Now()
+	if w.Deadlocked {
+		return // already reported where it happened; the rest of the case was not run
+	}
 	if w.Stuck {
 		m.fail("C20", "no-fixpoint", "the system did not reach a fixpoint within %d steps", w.Opt.StepBudget)
 		return
